@@ -84,6 +84,7 @@ func (ex *Exec) runBody(fr *Frame, st0 *State, pc0 Term) {
 		pc := ex.sc.Name(fmt.Sprintf("pc.%s.b%d", smtIdent(fn.Name()), b.Index), Or(conds...))
 		st := ex.mergeStates(mins)
 		fr.curBlock = b
+		fr.curState = st
 		fr.blockPC = pc
 		fr.dead = false
 
@@ -379,6 +380,10 @@ func (ex *Exec) addAssigns(ms *modSet, c *Contract) {
 			ms.heap[a] = true
 		}
 	}
+	for k := range c.AssignRows {
+		ms.heap[k] = true
+		ms.alloc = true
+	}
 }
 
 func (ex *Exec) enterLoop(fr *Frame, li *loopInfo, b *ssa.BasicBlock, st *State, pc Term, phiIn func(*ssa.Phi) Val) {
@@ -405,9 +410,16 @@ func (ex *Exec) enterLoop(fr *Frame, li *loopInfo, b *ssa.BasicBlock, st *State,
 	ms := ex.loopModSet(fr, li)
 	for phi, v := range initPhis {
 		fr.regs[phi] = ex.freshLike(v, phi.Type(), phi.Comment)
+		if phi.Comment == "rangeindex" {
+			// the hidden index of a range-over-slice loop: the SSA builder
+			// starts it at -1 and only ever adds 1 (built-in invariant).
+			if sv, ok := fr.regs[phi].(SV); ok && sv.T.Sort == SInt {
+				ex.sc.Assert(Implies(pc, app(SBool, ">=", sv.T, IntLit(-1))))
+			}
+		}
 	}
 	if ms.all {
-		ex.havocHeap(st, nil)
+		ex.havocAll(st, "instr.go:411")
 	} else {
 		var ks []string
 		for k := range ms.heap {
@@ -415,6 +427,9 @@ func (ex *Exec) enterLoop(fr *Frame, li *loopInfo, b *ssa.BasicBlock, st *State,
 		}
 		sort.Strings(ks)
 		if len(ks) > 0 || ms.alloc {
+			if ks == nil {
+				ks = []string{}
+			}
 			ex.havocHeap(st, ks)
 		}
 	}
@@ -738,13 +753,13 @@ func (ex *Exec) instr(fr *Frame, st *State, in ssa.Instruction) {
 		ex.runDefers(fr, st)
 	case *ssa.Go:
 		ex.unsup("go statement in " + fr.label)
-		ex.havocHeap(st, nil)
+		ex.havocAll(st, "instr.go:742")
 	case *ssa.Send:
 		ex.unsup("channel send in " + fr.label)
 	case *ssa.Select:
 		ex.unsup("select in " + fr.label)
 		fr.regs[x] = ex.freshVal(x.Type(), x.Name())
-		ex.havocHeap(st, nil)
+		ex.havocAll(st, "instr.go:748")
 	case *ssa.Range:
 		fr.regs[x] = ex.get(fr, x.X) // iterator = the collection itself
 	case *ssa.Next:
@@ -764,10 +779,35 @@ func (ex *Exec) instr(fr *Frame, st *State, in ssa.Instruction) {
 					msg = constant.StringVal(c.Value)
 				}
 			}
+			if mi, ok := x.X.(*ssa.MakeInterface); ok {
+				if call, ok := mi.X.(*ssa.Call); ok {
+					if f, ok := call.Call.Value.(*ssa.Function); ok && f.String() == "fmt.Sprintf" && len(call.Call.Args) > 0 {
+						if c, ok := call.Call.Args[0].(*ssa.Const); ok && c.Value != nil && c.Value.Kind() == constant.String {
+							msg = constant.StringVal(c.Value)
+						}
+					}
+				}
+			}
 			if len(msg) > 50 {
 				msg = msg[:50]
 			}
-			ex.oblige(fr, "panic", msg, pc, tFalse, x.Pos())
+			tolerated := false
+			if ex.contract != nil {
+				for _, ap := range ex.contract.AllowPanics {
+					if strings.Contains(msg, ap.Text) {
+						tolerated = true
+						// the tolerated panic is itself conditional: its reach condition must imply the stated condition
+						if ap.When != nil {
+							env := ex.loopEnv(fr, st)
+							g := ex.evalBool(*ap.When, env)
+							ex.oblige(fr, "tolerated-panic-condition", msg, pc, g, x.Pos())
+						}
+					}
+				}
+			}
+			if !tolerated {
+				ex.oblige(fr, "panic", msg, pc, tFalse, x.Pos())
+			}
 		}
 		fr.dead = true
 	case *ssa.If, *ssa.Jump:
@@ -865,7 +905,7 @@ func (ex *Exec) unop(fr *Frame, st *State, x *ssa.UnOp) Val {
 		return SV{app(SInt, "-", sv)}
 	case token.ARROW:
 		ex.unsup("channel receive in " + fr.label)
-		ex.havocHeap(st, nil)
+		ex.havocAll(st, "instr.go:894")
 		return ex.freshVal(x.Type(), x.Name())
 	case token.XOR:
 		return SV{app(SInt, "bitnot_", ex.term(v, SInt))}
@@ -1373,7 +1413,11 @@ func (ex *Exec) slice(fr *Frame, st *State, x *ssa.Slice) Val {
 	switch b := base.(type) {
 	case CellPtr:
 		if at, ok := b.C.Typ.Underlying().(*types.Array); ok && !hasLo && !hasHi && !hasMax && len(b.Path) == 0 {
-			return CellSlice{C: b.C, Lo: 0, Hi: int(at.Len())}
+			if sliceOnlyVariadic(x) {
+				return CellSlice{C: b.C, Lo: 0, Hi: int(at.Len())}
+			}
+			// the slice lives on: give it a real backing array with the current elements
+			return ex.materializeCellSlice(st, b.C, at)
 		}
 	case SV:
 		switch b.T.Sort {
@@ -1463,4 +1507,43 @@ func (ex *Exec) strCat(x, y Term) Term {
 	ex.sc.Assert(Implies(Eq(x, T(SStr, "str.empty_")), Eq(r, y)))
 	ex.sc.Assert(Implies(Eq(y, T(SStr, "str.empty_")), Eq(r, x)))
 	return r
+}
+
+// sliceOnlyVariadic: the slice value is only used as the variadic argument of calls.
+func sliceOnlyVariadic(x *ssa.Slice) bool {
+	for _, r := range *x.Referrers() {
+		switch u := r.(type) {
+		case *ssa.Call:
+			n := len(u.Call.Args)
+			if n == 0 || u.Call.Args[n-1] != x {
+				return false
+			}
+			if bi, ok := u.Call.Value.(*ssa.Builtin); ok && bi.Name() != "append" {
+				return false
+			}
+		case *ssa.DebugRef:
+		default:
+			return false
+		}
+	}
+	return true
+}
+
+func (ex *Exec) materializeCellSlice(st *State, c *Cell, at *types.Array) Val {
+	arr, _ := st.cells[c].(ArrV)
+	n := int64(len(arr.Elems))
+	r := ex.newRef(st, "lit")
+	ex.sc.Assert(app(SBool, ">", r, IntLit(0)))
+	if s, ok := scalarSort(at.Elem()); ok {
+		key := elemKey(at.Elem())
+		E := ex.heapRead(st, key, ArraySort(SInt, ArraySort(SInt, s)))
+		row := constArray(s, zeroTerm(s))
+		for i, e := range arr.Elems {
+			row = Store(row, IntLit(int64(i)), ex.term(e, s))
+		}
+		ex.heapSet(st, key, Store(E, r, row))
+	} else {
+		ex.unsup("slice literal of non-scalar " + at.Elem().String())
+	}
+	return SV{ex.sc.Name("litslice", app(SSlice, "mk-slice", r, IntLit(0), IntLit(n), IntLit(n)))}
 }
